@@ -35,6 +35,7 @@ def register(reg, stubs, world):
     reg.add(Contract('policy:pick_default_policy_file', pre=pick_pre, post=pick_post, allocates=True, props=('C09',),
                      doc='complete decision table of the policy-file choice'))
     register2(reg, stubs, world)
+    register_cache(reg, stubs, world)
 
 
 def register2(reg, stubs, world):
@@ -138,3 +139,93 @@ def register2(reg, stubs, world):
         return [('equal-iff-same-name-same-printed-check-and-related-classes', out.value == mk_bool(same))]
     reg.add(Contract('policy:RuleDefault.__eq__', pre=eq_pre, post=eq_post, heap_axioms=tree_axioms, props=('C15', 'C18'),
                      doc='equality of rule defaults by name and printed check'))
+
+
+def register_cache(reg, stubs, world):
+    from specs.external import fs_exists, fs_mtime, fs_content, fs_eacces
+
+    def cache_ok(eng, st, cache):
+        """the cache is a dict object whose entries are dict objects holding 'data' (a string) and 'mtime' (a number)"""
+        m = V.m(z3.Select(st.H('$val'), V.ref(cache)))
+        k = z3.String('ck!k')
+        e = z3.Select(m, k)
+        em = V.m(z3.Select(st.H('$val'), V.ref(e)))
+        num = lambda v: z3.Or(V.is_int(v), V.is_float(v))
+        return z3.And(V.is_obj(cache), clsof(V.ref(cache)) == eng.cid('dict'), V.is_dict(z3.Select(st.H('$val'), V.ref(cache))),
+                      qforall([k], z3.Implies(e != ABSENT, z3.And(
+                          V.is_obj(e), clsof(V.ref(e)) == eng.cid('dict'), V.ref(e) != V.ref(cache),
+                          V.is_dict(z3.Select(st.H('$val'), V.ref(e))),
+                          z3.Or(z3.Length(keys_of(em)) == 0,
+                                z3.And(V.is_str(z3.Select(em, z3.StringVal('data'))), num(z3.Select(em, z3.StringVal('mtime'))))))),
+                              patterns=[e]))
+
+    def rc_pre(cx):
+        return [('cache-holds-well-formed-entries', cache_ok(cx.eng, cx.st0, cx['cache'])),
+                ('filename-is-a-string', V.is_str(cx['filename'])),
+                ('force-is-a-boolean', V.is_bool(cx['force_reload']))]
+
+    def numval(v):
+        return z3.If(V.is_int(v), z3.ToReal(V.i(v)), V.r(v))
+
+    def rc_post(cx, out):
+        eng, st, s1 = cx.eng, cx.st0, out.st
+        cache, f, force = cx['cache'], V.s(cx['filename']), truthy(cx['force_reload'])
+        m0 = V.m(eng.val(st, cache))
+        e0 = z3.Select(m0, f)
+        em0 = V.m(z3.Select(st.H('$val'), V.ref(e0)))
+        had = z3.And(e0 != ABSENT, z3.Length(keys_of(em0)) > 0, z3.Not(force))
+        stale = fs_mtime(f) > numval(z3.Select(em0, z3.StringVal('mtime')))
+        reload_ = z3.Or(z3.Not(had), stale)
+        if out.kind == 'exc':
+            cn = out.exc.cname
+            if cn == 'cfg.ConfigFilesPermissionDeniedError':
+                return [('permission-error-only-for-an-unreadable-file-that-needs-reading',
+                         z3.And(fs_exists(f), reload_, fs_eacces(f)))]
+            return [False]
+        r = out.value
+        reloaded, data = V.titems(r)[0], V.titems(r)[1]
+        m1 = V.m(eng.val(s1, cache))
+        e1 = z3.Select(m1, f)
+        em1 = V.m(eng.val(s1, e1))
+        return [('returns-a-pair', z3.And(V.is_tuple(r), z3.Length(V.titems(r)) == 2)),
+                ('a-missing-file-reports-reloaded-with-an-empty-mapping', z3.Implies(z3.Not(fs_exists(f)), z3.And(
+                    reloaded == TRUE, V.is_obj(data), V.is_dict(eng.val(s1, data)),
+                    z3.Length(keys_of(V.m(eng.val(s1, data)))) == 0))),
+                ('rereads-exactly-when-forced-uncached-or-newer', z3.Implies(
+                    z3.And(fs_exists(f), z3.Not(fs_eacces(f))),
+                    z3.Implies(reload_, z3.And(reloaded == TRUE, data == V.str(fs_content(f)),
+                                               z3.Select(em1, z3.StringVal('data')) == V.str(fs_content(f)),
+                                               z3.Select(em1, z3.StringVal('mtime')) == V.float(fs_mtime(f)))))),
+                ('otherwise-serves-the-cached-text', z3.Implies(
+                    z3.And(fs_exists(f), z3.Not(reload_)),
+                    z3.And(reloaded == FALSE, data == z3.Select(em0, z3.StringVal('data')), e1 == e0,
+                           eng.val(s1, e1) == eng.val(st, e0))))]
+    reg.add(Contract('_cache_handler:read_cached_file', pre=rc_pre, post=rc_post,
+                     raises=('cfg.ConfigFilesPermissionDeniedError',), modifies=('$val',), frame=lambda cx, f, o, n: [],
+                     allocates=True, props=('C10',),
+                     cases=lambda cx: [z3.And(z3.Select(V.m(cx.eng.val(cx.st0, cx['cache'])), V.s(cx['filename'])) != ABSENT,
+                                              z3.Not(truthy(cx['force_reload']))),
+                                       z3.And(z3.Select(V.m(cx.eng.val(cx.st0, cx['cache'])), V.s(cx['filename'])) != ABSENT,
+                                              truthy(cx['force_reload'])),
+                                       z3.Select(V.m(cx.eng.val(cx.st0, cx['cache'])), V.s(cx['filename'])) == ABSENT],
+                     doc='mtime-keyed content cache: re-read exactly when forced, uncached or the file is newer than the '
+                         'cached mtime; a missing file is reported as reloaded with an empty mapping'))
+
+    def dc_pre(cx):
+        return [('cache-is-a-dict-object', z3.And(V.is_obj(cx['cache']), clsof(V.ref(cx['cache'])) == cx.eng.cid('dict'),
+                                                 V.is_dict(cx.eng.val(cx.st0, cx['cache'])))),
+                ('filename-is-a-string', V.is_str(cx['filename']))]
+
+    def dc_post(cx, out):
+        eng = cx.eng
+        if out.kind != 'ret':
+            return [False]
+        m0, m1 = V.m(eng.val(cx.st0, cx['cache'])), V.m(eng.val(out.st, cx['cache']))
+        return [('removes-exactly-that-entry', z3.And(V.is_dict(eng.val(out.st, cx['cache'])),
+                                                      m1 == z3.Store(m0, V.s(cx['filename']), ABSENT)))]
+
+    def only_cache(cx, f, old, new):
+        r = z3.Int('oc!r')
+        return [qforall([r], z3.Implies(r != V.ref(cx['cache']), z3.Select(new, r) == z3.Select(old, r)))]
+    reg.add(Contract('_cache_handler:delete_cached_file', pre=dc_pre, post=dc_post, modifies=('$val',),
+                     frame=only_cache, props=('C10',)))
